@@ -5,12 +5,13 @@ import (
 	"go/ast"
 	"go/types"
 	"math/big"
+	"strings"
 )
 
 func init() {
 	register(&propDef{
 		ID: "C11", Level: "proof",
-		Decides: "for ALL inputs: chord.Between equals circular-interval membership (open / right-closed, full circle when low==high) - by checking that its operands are touched only through comparisons and evaluating the body on every order type (13 weak orderings x inclusive); chord.ModuloSum equals (x+y) mod 2^48 with no uint64 overflow in any intermediate - by interval + congruence abstract interpretation of its expression; chord.Hash lies in [0, 2^48) and depends only on its argument.",
+		Decides: "for ALL inputs: chord.Between equals circular-interval membership (open / right-closed, full circle when low==high) - by checking that its operands are touched only through comparisons and evaluating the body on every order type (13 weak orderings x inclusive); chord.ModuloSum equals (x+y) mod 2^48 with no uint64 overflow in any intermediate - by interval + congruence abstract interpretation of its body (locals, compound assignments, branches on comparisons with constants refine the interval); chord.Hash lies in [0, 2^48) and depends only on its argument.",
 		NotDecided: "nothing about xxh3 itself (trusted to be a deterministic function of its argument).",
 		Run:        runC11,
 	})
@@ -19,6 +20,9 @@ func init() {
 		mutation{"between-strict-low", "spec/chord/chord.go", "return (low < target && target < high) || (inclusive && target == high)", "return (low <= target && target < high) || (inclusive && target == high)", "between-table"},
 		mutation{"between-wrap-branch", "spec/chord/chord.go", "if high > low {", "if high >= low {", "between-table"},
 		mutation{"modulosum-overflow", "spec/chord/chord.go", "return (x%MaxIdentitifer + y%MaxIdentitifer) % MaxIdentitifer", "return (x + y) % MaxIdentitifer", "modulosum"},
+		mutation{"modulosum-conditional-subtract", "spec/chord/chord.go", "	return (x%MaxIdentitifer + y%MaxIdentitifer) % MaxIdentitifer", "	sum := x%MaxIdentitifer + y%MaxIdentitifer\n	if sum >= MaxIdentitifer {\n		sum -= MaxIdentitifer\n	}\n	return sum", "!modulosum"},
+		mutation{"modulosum-conditional-subtract-off-by-one", "spec/chord/chord.go", "	return (x%MaxIdentitifer + y%MaxIdentitifer) % MaxIdentitifer", "	sum := x%MaxIdentitifer + y%MaxIdentitifer\n	if sum > MaxIdentitifer {\n		sum -= MaxIdentitifer\n	}\n	return sum", "modulosum-range"},
+		mutation{"modulosum-subtract-unreduced", "spec/chord/chord.go", "	return (x%MaxIdentitifer + y%MaxIdentitifer) % MaxIdentitifer", "	sum := x%MaxIdentitifer + y\n	if sum >= MaxIdentitifer {\n		sum -= MaxIdentitifer\n	}\n	return sum", "modulosum"},
 		mutation{"modulosum-half", "spec/chord/chord.go", "return (x%MaxIdentitifer + y%MaxIdentitifer) % MaxIdentitifer", "return (x%MaxIdentitifer + y) % MaxIdentitifer", "modulosum"},
 		mutation{"modulus-constant", "spec/chord/chord.go", "MaxIdentitifer           uint64 = 1 << MaxFingerEntries", "MaxIdentitifer           uint64 = 1<<MaxFingerEntries - 1", "ring-size"},
 		mutation{"hash-unreduced", "spec/chord/chord.go", "return xxh3.Hash(b) % MaxIdentitifer", "return xxh3.Hash(b)", "hash-range"},
@@ -128,27 +132,37 @@ func runC11(c *Ctx) {
 
 	// ModuloSum
 	ms := c.Func("spec/chord", "", "ModuloSum")
-	ret := soleReturn(c, ms)
 	var mp []types.Object
 	for _, fld := range ms.Type.Params.List {
 		for _, nm := range fld.Names {
 			mp = append(mp, ms.Info.Defs[nm])
 		}
 	}
-	if len(mp) != 2 || len(ret.Results) != 1 {
+	if len(mp) != 2 {
 		c.Failf("ModuloSum: expected (x, y uint64) uint64")
 	}
-	abs, err := ms.evalMod(ret.Results[0], mp[0], mp[1], Mv, nil)
-	c.Ob("modulosum-no-overflow", "spec/chord.ModuloSum", ret.Pos(), err == nil,
-		fmt.Sprintf("interval evaluation of %s over x,y in [0,2^64): %v", types.ExprString(ret.Results[0]), err))
+	// the body is executed abstractly (locals, compound assignments, branches on a
+	// comparison with a constant refine the interval): a single return expression and a
+	// reduce-then-conditionally-subtract form are decided alike
+	abs, mrets, err := ms.evalModBody(mp[0], mp[1], Mv, nil)
+	mpos := ms.Decl.Pos()
+	if len(mrets) > 0 {
+		mpos = mrets[len(mrets)-1].Pos()
+	}
+	undecided := err != nil && !strings.Contains(err.Error(), "overflow") && !strings.Contains(err.Error(), "underflow")
+	if undecided {
+		c.Failf("ModuloSum: body not decided by the interval/congruence interpretation: %v", err)
+	}
+	c.Ob("modulosum-no-overflow", "spec/chord.ModuloSum", mpos, err == nil,
+		fmt.Sprintf("interval evaluation of the body over x,y in [0,2^64): %v", err))
 	if err == nil {
 		inRange := abs.lo.Sign() >= 0 && abs.hi.Cmp(new(big.Int).Sub(Mv, big.NewInt(1))) <= 0
-		c.Ob("modulosum-range", "spec/chord.ModuloSum", ret.Pos(), inRange, fmt.Sprintf("result interval [%v,%v] must lie in [0,2^48-1]", abs.lo, abs.hi))
+		c.Ob("modulosum-range", "spec/chord.ModuloSum", mpos, inRange, fmt.Sprintf("result interval [%v,%v] must lie in [0,2^48-1]", abs.lo, abs.hi))
 		one := big.NewInt(1)
 		lin := abs.linOK && new(big.Int).Mod(abs.cx, Mv).Cmp(one) == 0 && new(big.Int).Mod(abs.cy, Mv).Cmp(one) == 0 && abs.c0.Sign() == 0
-		c.Ob("modulosum-congruence", "spec/chord.ModuloSum", ret.Pos(), lin,
+		c.Ob("modulosum-congruence", "spec/chord.ModuloSum", mpos, lin,
 			fmt.Sprintf("result must be congruent to 1*x + 1*y + 0 modulo 2^48 (then, being in range, it IS (x+y) mod 2^48); found linOK=%v cx=%v cy=%v c0=%v", abs.linOK, abs.cx, abs.cy, abs.c0))
-		c.Sample(map[string]any{"function": "ModuloSum", "expression": types.ExprString(ret.Results[0]), "interval": []string{abs.lo.String(), abs.hi.String()}})
+		c.Sample(map[string]any{"function": "ModuloSum", "returns": len(mrets), "interval": []string{abs.lo.String(), abs.hi.String()}})
 	}
 
 	// Hash
